@@ -364,6 +364,11 @@ def oracle(ctx, case, out):
         if kind == "timeout" and label == "async":
             ctx.violation("no-expiry-request-failed-with-timeout", case, observed=(label, kind), expected="value or EOFError",
                           what="a pending request that has no expiry failed with the timeout error instead of EOFError")
+        elif kind == "timeout":
+            # the peer in these runs answers at once or is gone: a synchronous request that runs into its 5 (virtual) second timeout was
+            # not told about the end of the connection - it would have hung without the timeout
+            ctx.violation("request-timed-out-instead-of-EOFError", case, observed=(label, kind), expected="value or EOFError",
+                          what="a request on a connection that ended was left waiting until its own timeout instead of failing with EOFError")
         if kind.startswith("exc"):
             ctx.violation("request-failed-with:" + kind, case, observed=(label, kind), expected="value, EOFError or timeout", what="a request ended with something other than its value, EOFError or its timeout")
     for nm, v in out["again"].items():
